@@ -20,6 +20,7 @@ import (
 	"errors"
 	"net"
 	"net/http"
+	"net/textproto"
 	"net/url"
 	"strings"
 	"sync/atomic"
@@ -428,11 +429,15 @@ func mutateHeadersByRules(headers, rules http.Header, repl httpserver.Replacer, 
 		for _, ruleValue := range ruleValues {
 			// Replace variables in replacement string
 			replacement := repl.Replace(ruleValue.to)
-			original := headers.Get(ruleField)
-			if len(replacement) > 0 && len(original) > 0 {
-				// Replace matches in original string with replacement string
-				replaced := ruleValue.regexp.ReplaceAllString(original, replacement)
-				headers.Set(ruleField, replaced)
+			if len(replacement) > 0 {
+				// Replace matches in every line of the header (the
+				// other lines are not touched, let alone dropped)
+				values := headers[textproto.CanonicalMIMEHeaderKey(ruleField)]
+				for i, original := range values {
+					if len(original) > 0 {
+						values[i] = ruleValue.regexp.ReplaceAllString(original, replacement)
+					}
+				}
 			}
 		}
 	}
